@@ -1,11 +1,11 @@
 SPECIFICATION Spec
 CONSTANTS
-  Node = {n1, n2, n3}
+  Node = {n1, n2, n3, n4}
   Voter = {n1, n2, n3}
   MaxTerm = 2
-  MaxLog = 3
-  NonCmdKinds = {"C"}
-  WarmStart = FALSE
+  MaxLog = 4
+  NonCmdKinds = {}
+  WarmStart = TRUE
   MaxRestarts = 0
   UpgradeStrong = TRUE
   VerifyQuorum = TRUE
@@ -13,9 +13,9 @@ CONSTANTS
   StrongThroughLog = TRUE
   SignalConfig = TRUE
   SignalBarrier = TRUE
-  MaxSnaps = 0
+  MaxSnaps = 1
   SnapAtApplied = TRUE
   InstallReplacesDb = TRUE
   SignalRestore = TRUE
-SYMMETRY Sym
-INVARIANTS StateMachineSafety OneLeaderPerTerm ReadLin NoStuckRead ServedAfterProtocol
+SYMMETRY SymV
+INVARIANTS ReplicaNeverLeads StateMachineSafety OneLeaderPerTerm ReadLin NoStuckRead ServedAfterProtocol DbIsLogPrefix SnapshotIsLogPrefix ReadSeesAcked
